@@ -477,6 +477,15 @@ func walk(r *simkit.Run, prop string) {
 			return
 		}
 		want := desired.ToAtlas()
+		// Sometimes (C17) the desired state is not written by hand but inspected from another
+		// database (`--to sqlite://other.db`) in which plain unique indexes are UNIQUE constraints:
+		// the desired graph then carries SQLite's generated index names.
+		if prop == "C17" && t.Chance("desired-inspected-from-a-database", 1, 5) {
+			if ws := inspectedDesired(ctx, dir, desired); ws != nil {
+				want = ws
+				r.Probe("desired-inspected-from-a-database")
+			}
+		}
 		changes, derr := drv0.RealmDiff(cur, want.Realm, schema.DiffNormalized())
 		if derr != nil {
 			r.Logf("step %d: diff error %v", step, derr)
@@ -1411,4 +1420,45 @@ func inspectSig(err error) string {
 		return "inspect-failed/fk-without-column-list-to-missing-table"
 	}
 	return "inspect-failed"
+}
+
+// inspectedDesired creates the desired schema on a scratch engine, with every plain unique index
+// written as a UNIQUE constraint, and returns what Atlas inspects from it.
+func inspectedDesired(ctx context.Context, dir string, desired *Sch) *schema.Schema {
+	c := desired.Clone()
+	for _, tb := range c.Tables {
+		seen := map[string]bool{}
+		for _, ix := range tb.Idx {
+			plain := ix.Unique && ix.Where == ""
+			var cols []string
+			for _, p := range ix.Parts {
+				if p.Expr != "" || p.Desc {
+					plain = false
+				}
+				cols = append(cols, p.Col)
+			}
+			if key := strings.Join(cols, ","); plain && !seen[key] {
+				seen[key] = true
+				ix.Inline = true
+			}
+		}
+	}
+	p := filepath.Join(dir, "want.db")
+	os.Remove(p)
+	db := openDB(p, false)
+	defer db.Close()
+	for _, st := range c.DDL() {
+		if _, err := db.Exec(st); err != nil {
+			return nil
+		}
+	}
+	drv, err := sqlite.Open(db)
+	if err != nil {
+		return nil
+	}
+	realm, err := drv.InspectRealm(ctx, nil)
+	if err != nil || len(realm.Schemas) != 1 {
+		return nil
+	}
+	return realm.Schemas[0]
 }
